@@ -49,6 +49,7 @@ fn profile() -> Profile<'static> {
         dup_names: &["strcpy", "gets", "memcpy", "printf"],
         p_dup: 60,
         p_cond_call: 30,
+        same_call_address: true,
     }
 }
 
